@@ -42,6 +42,15 @@ void* ext_cell_list_new(const double* pos, int n, const double* cell, const bool
         return (void*)cl;
     } catch (const std::exception& e) { last_error = e.what(); return nullptr; }
 }
+void* ext_cell_list_direct(const double* pos, int n, const int* idx, const double* fac, double cutoff) {
+    try {
+        py::array_t<double> P((double*)pos, {n, 3}); py::array_t<int> I((int*)idx, {n});
+        py::array_t<double> F((double*)fac, {n, 3});
+        // CellList keeps indices_py; give it owned memory
+        py::array_t<int> Iown({n}); for (int i = 0; i < n; ++i) Iown.d[i] = idx[i];
+        return (void*) new CellList(P, Iown, F, cutoff);
+    } catch (const std::exception& e) { last_error = e.what(); return nullptr; }
+}
 void ext_cell_list_free(void* h) { delete (CellList*)h; }
 
 // query; returns count, fills malloc'ed arrays
